@@ -753,7 +753,7 @@ func (g *goTr) tr(x ast.Expr, inOld bool) string {
 // ---- driver ----------------------------------------------------------------------------------------
 
 func tryReplay(w *World, o *Options, ob *Obligation, base string, log *strings.Builder) (string, bool) {
-	if ob.Kind == "ground" || ob.Kind == "bounded" {
+	if ob.Kind == "ground" || ob.Kind == "bounded" || ob.Kind == "scan" {
 		return "", ob.Extra["confirmed"] == "true"
 	}
 	e := ob.enc
